@@ -34,7 +34,18 @@ where
 {
     let mut results: Vec<Value> = Vec::with_capacity(jobs.len());
     let mut next = 0usize;
+    // VERIF_MAX_TIMEOUTS: once that many jobs of this batch ran into the watchdog the rest is not run (a defect that
+    // hangs on a whole family of inputs would otherwise cost limit x family size); they are reported as "not-run".
+    let max_timeouts: usize = std::env::var("VERIF_MAX_TIMEOUTS").ok().and_then(|s| s.parse().ok()).unwrap_or(usize::MAX);
+    let mut timeouts = 0usize;
     while next < jobs.len() {
+        if timeouts >= max_timeouts {
+            while next < jobs.len() {
+                results.push(json!({"crash": "not-run", "after_timeouts": timeouts}));
+                next += 1;
+            }
+            break;
+        }
         let mut fds = [0i32; 2];
         let mut efds = [0i32; 2];
         unsafe {
@@ -133,6 +144,7 @@ where
                     libc::waitpid(pid, &mut st, 0);
                 }
                 results.push(json!({"crash": "timeout", "limit_ms": limits.per_job.as_millis() as u64}));
+                timeouts += 1;
                 next += 1;
                 died = true;
                 break;
